@@ -44,6 +44,8 @@ class TzState:
         f = fname(t)
         if t == NONE_T:
             return NONE
+        if t in facts:
+            return facts[t]     # refined by a branch on `<this value>.tzinfo is None`, whatever expression the value is
         if f == "ite":
             c, a, b = t.args
             fa, fb = dict(facts), dict(facts)
@@ -60,8 +62,6 @@ class TzState:
             if {sa, sb} == {NAIVE, AWARE} or {sa, sb} == {NAIVE, AWARE_UTC}:
                 return MAYBE
             return min(sa, sb, key=order.index)
-        if t in facts:
-            return facts[t]
         if f == "m_astimezone":
             sx = self.state(t.args[0], facts)
             tz = t.args[1] if len(t.args) > 1 else None
